@@ -7,6 +7,10 @@ list (modulo its length), so deleting an op while shrinking keeps the rest meani
   ["add_fwd", name, k]        add_child(stub(name), forward=k)
   ["remove", i]               remove(model[i])
   ["remove_nonchild", name]   remove(<a stub that was never added>)
+  ["add_nested", name]        add_child(<a CHECKED child holding one child of its own>)
+  ["remove_grandchild", i]    remove(<first child of the i-th held child that has children>): not a child of e
+  ["remove_elsewhere", name]  remove(<a child attached to ANOTHER checked element of e's class>): the bystander must
+                              stay as it was (recorded in obs()['side_effects'])
   ["replace", i, name]        replace_child(model[i], stub(name))
   ["replace_nonchild", name]  replace_child(<never added>, stub(name))
   ["dot_inst", name]          e.xml_<name> = stub(name)
@@ -27,9 +31,32 @@ from .driver import call, py_name, stub
 from .oracle import lexical
 from .oracle.schema import parikh, schema
 
-STRUCT_OPS = ('add', 'add_fwd', 'remove', 'remove_nonchild', 'replace', 'replace_fn', 'replace_nonchild', 'dot_inst',
+STRUCT_OPS = ('add', 'add_fwd', 'add_nested', 'remove', 'remove_nonchild', 'remove_grandchild', 'remove_elsewhere', 'replace', 'replace_fn', 'replace_nonchild', 'dot_inst',
               'dot_val', 'dot_none')
 FOREIGN_POOL = ['pitch', 'words', 'p', 'step', 'measure', 'note', 'work', 'credit', 'staff', 'f']
+
+
+def nested_child(name):
+    """a CHECKED child with its required attributes that holds one child of its own (the first symbol of its alphabet
+    that it accepts); a plain checked child when it cannot have children"""
+    r = call(driver.fresh, name, True, True)
+    if not r.ok:
+        return stub(name)       # construction problems are other properties' subject
+    c = r.value
+    s = schema()
+    t = s.element_type[name]
+    if s.content_kind(t) == 'elements':
+        for a in s.alphabet(t):
+            if call(c.add_child, stub(a)).ok:
+                break
+    return c
+
+
+def _bystander_state(x):
+    ro, ru = call(x.get_children, True), call(x.get_children, False)
+    # getters only: a to_string() here would be an operation the twin never performs
+    return ([id(c) for c in (ro.value or [])] if ro.ok else ro.etype, [id(c) for c in (ru.value or [])] if ru.ok else ru.etype,
+            [c.get_parent() is x for c in (ru.value or [])] if ru.ok else None)
 
 
 class Run:
@@ -50,6 +77,7 @@ class Run:
         self.ops = []
         self.flags = set()    # classification labels of what happened
         self.leaf_counts = self._leaf_counts()
+        self.side_effects = []    # what a call did to an element other than self.e
 
     def _leaf_counts(self):
         c = {}
@@ -104,6 +132,37 @@ class Run:
         elif k == 'remove_nonchild':
             c = self._new(op[1], idx)
             r = call(e.remove, c)
+        elif k == 'add_nested':
+            c = self._new(op[1], idx, factory=nested_child)
+            r = call(e.add_child, c)
+            if r.ok:
+                self.model.append(c)
+                if call(c.get_children, False).value:
+                    self.flags.add('nested')
+        elif k == 'remove_grandchild':
+            cands = [c for c in self.model if call(c.get_children, False).value]
+            if not cands:
+                return self._finish(op, None)
+            holder = cands[op[1] % len(cands)]
+            before = _bystander_state(holder)
+            r = call(e.remove, call(holder.get_children, False).value[0])
+            self.flags.add('remove-grandchild')
+            if not r.ok and _bystander_state(holder) != before:
+                self.side_effects.append(['held child changed by failed remove of its child', idx])
+        elif k == 'remove_elsewhere':
+            ro = call(driver.fresh, self.el, True, True)
+            if not ro.ok:
+                return self._finish(op, None)
+            other = ro.value
+            c = self._new(op[1], idx)
+            self.keep.append(other)
+            if not call(other.add_child, c).ok:
+                return self._finish(op, None)
+            before = _bystander_state(other)
+            r = call(e.remove, c)
+            self.flags.add('remove-elsewhere')
+            if not r.ok and _bystander_state(other) != before:
+                self.side_effects.append(['bystander changed by failed remove of its child', idx])
         elif k == 'replace':
             if not self.model:
                 return self._finish(op, None)
@@ -231,6 +290,7 @@ class Run:
         other.results = list(self.results)
         other.ops = list(self.ops)
         other.flags = set(self.flags)
+        other.side_effects = list(self.side_effects)
         if drop_last:
             other.ops = other.ops[:-1]
             other.results = other.results[:-1]
@@ -249,6 +309,7 @@ class Run:
         o['orphans'] = [self.label(c) for c in kids if call(c.get_parent).value is not e]
         o['attrs'] = {k: repr(v) for k, v in sorted(dict(e.attributes).items())}
         o['value'] = repr(e.value_)
+        o['side_effects'] = list(self.side_effects)
         if with_string:
             o['string'] = self.string_verdict(ic)
         return o
@@ -300,7 +361,7 @@ def classify_symbols(run):
 DEFAULT_WEIGHTS = {
     'add': 10, 'add_fwd': 2, 'remove': 3, 'remove_nonchild': 1, 'replace': 2, 'replace_fn': 1, 'replace_nonchild': 1,
     'dot_inst': 2, 'dot_val': 1, 'dot_none': 2, 'to_string': 2, 'deepcopy': 0, 'set_attr': 0, 'set_attr_none': 0,
-    'set_value': 0,
+    'set_value': 0, 'add_nested': 0, 'remove_grandchild': 0, 'remove_elsewhere': 0,
 }
 
 
@@ -357,6 +418,13 @@ def draw_op(data, run, weights=None, sym_bias=None):
         return ['remove', data.draw(st.integers(0, len(run.model) - 1))]
     if k == 'remove_nonchild':
         return ['remove_nonchild', data.draw(st.sampled_from(run.alphabet))]
+    if k == 'add_nested':
+        n, c = draw_symbol(data, run, {'prefix': 6, 'compatible': 4, 'incompatible': 1, 'foreign': 0})
+        return ['add_nested', n]
+    if k == 'remove_grandchild':
+        return ['remove_grandchild', data.draw(st.integers(0, 3))]
+    if k == 'remove_elsewhere':
+        return ['remove_elsewhere', data.draw(st.sampled_from(run.alphabet))]
     if k == 'replace':
         i = data.draw(st.integers(0, len(run.model) - 1))
         if data.draw(st.integers(0, 2)) == 0:
